@@ -29,10 +29,11 @@ Definition gate_ok (b tx a : list Z) : bool :=
 (** KNOWN FINDING coalesced-behind-ack-only (known_findings.txt): poll_transmit checks the
     congestion window only when it starts a datagram; ack-eliciting packets of a later space that
     are coalesced into a datagram begun by a non-ack-eliciting long-header packet (handshake
-    ACKs) are not checked, so bytes in flight can pass the window by less than one datagram.
+    ACKs) are not checked: each such datagram (a single one, at most one MTU, beginning with a long-header
+    packet) can carry bytes in flight past the window, and consecutive ones accumulate.
     Exempted only when the scenario carries key 902. *)
 Definition known_class (b tx a : list Z) : bool :=
-  Z.testbit (fld tx 9) 0 && (fld tx 6 =? 0) && (pf a 4 <? Z.max (pf b 6) (pf a 6) + pf b 7).
+  Z.testbit (fld tx 9) 0 && (fld tx 6 =? 0) && (fld tx 5 <=? pf b 7).
 
 Record st := { last : list (key * list Z); pend : option (list Z * list Z); known_ok : bool }.
 Definition st0 (k : bool) : st := {| last := []; pend := None; known_ok := k |}.
